@@ -26,7 +26,7 @@
    takes it from the record `codefacts`; Props instantiate it with the facts regenerated from the working tree.
 
    Simplifications (inputs the harness controls): message flags are not modelled; the sequence set of COPY/MOVE/EXPUNGE
-   is given as the resolved list of UIDs; literals carry no X-Pm-Gluon-Id header (the duplicate-append shortcut of
+   is given as the resolved list of UIDs (any order, duplicates allowed); literals carry no X-Pm-Gluon-Id header (the duplicate-append shortcut of
    AppendRegular is not taken); the connector never returns an already known remote message ID; a failing connector
    call / refused check rolls the whole write transaction back. *)
 From Coq Require Import List ZArith NArith Bool Lia.
@@ -142,7 +142,12 @@ Fixpoint select_rows (rows : list row) (uids : list Z) : list row :=
   | [] => []
   | u :: t => match find_row u rows with Some r => r :: select_rows rows t | None => select_rows rows t end
   end.
-Definition selection (m : mbox) (uids : list Z) : list row := select_rows (mb_rows m) (zdedup uids).
+(* Mailbox.Copy / Mailbox.Move hand the selected messages over in ascending UID order (whatever the order of the
+   sequence set), so that the sorted UID sets of COPYUID correspond position by position *)
+Fixpoint zinsert (x : Z) (l : list Z) : list Z :=
+  match l with [] => [x] | y :: t => if Z.leb x y then x :: l else y :: zinsert x t end.
+Definition zsort (l : list Z) : list Z := fold_right zinsert [] l.
+Definition selection (m : mbox) (uids : list Z) : list row := select_rows (mb_rows m) (zsort (zdedup uids)).
 
 (* ---- store updates ---- *)
 Definition set_mboxes (l : list mbox) (s : store) : store :=
